@@ -504,8 +504,15 @@ def run_program_case(case):
         return f"optimize(optimize(q)) has {len(r2[1])} partitions, optimize(q) {len(r1[1])}", stats
     unordered = p.unordered or any(type(e).__name__ in ("DiskShuffle", "P2PShuffle") for e in o1.walk())
     noindex = p.noindex
-    a = pd.concat(r1[1]) if all(isinstance(x, (pd.DataFrame, pd.Series)) for x in r1[1]) and r1[1] else r1[1]
-    b = pd.concat(r2[1]) if all(isinstance(x, (pd.DataFrame, pd.Series)) for x in r2[1]) and r2[1] else r2[1]
+    def whole(parts):
+        # the collection as a whole (which rows land in which partition is not part of the result, and is
+        # unspecified after a disk shuffle followed by a positional repartition)
+        parts = [p.to_series().reset_index(drop=True) if isinstance(p, pd.Index) else p for p in parts]
+        return pd.concat(parts) if parts and all(isinstance(x, (pd.DataFrame, pd.Series)) for x in parts) else parts
+
+    index_result = bool(r1[1]) and all(isinstance(x, pd.Index) for x in r1[1])
+    noindex = noindex or index_result
+    a, b = whole(r1[1]), whole(r2[1])
     if isinstance(a, list):
         same = all(e2e.same(x, y, sort_rows=unordered, drop_index=noindex) for x, y in zip(a, b))
     else:
